@@ -38,4 +38,34 @@ PROPS = {
                 gens=[(["join"], "random", 1.0), (["join"], "stuck", 0.3), (["join"], "panic", 0.2),
                       (["join"], "big", 0.08)],
                 assumptions=COMMON_ASSUME),
+    "C05": dict(monitor="C05", proj="FUN", cfgs=ALL3, quick=1500, thorough=20000,
+                gens=[(["try_join"], "random", 1.0), (["try_join"], "errs", 0.6), (["try_join"], "stuck", 0.2),
+                      (["try_join"], "panic", 0.2), (["try_join"], "big", 0.08)],
+                assumptions=COMMON_ASSUME),
+    "C06": dict(monitor="C06", proj="C03", cfgs=ALL3, quick=1500, thorough=20000,
+                gens=[(["race"], "random", 1.0), (["race"], "stuck", 0.4), (["race"], "panic", 0.2),
+                      (["race"], "big", 0.08)],
+                assumptions=COMMON_ASSUME + ["racing zero futures is outside C06 (the real code divides by zero in "
+                                             "Indexer::iter); the generator uses n >= 1"]),
+    "C07": dict(monitor="C07", proj="FUN", cfgs=ALL3, quick=1500, thorough=20000,
+                gens=[(["race_ok"], "random", 1.0), (["race_ok"], "errs", 0.8), (["race_ok"], "stuck", 0.2),
+                      (["race_ok"], "panic", 0.2), (["race_ok"], "big", 0.08)],
+                assumptions=COMMON_ASSUME),
+    "C19": dict(monitor="C19", proj="FUN", cfgs=ALL3, quick=1500, thorough=20000,
+                gens=[(["wait_f", "wait_s"], "random", 1.0), (["wait_f", "wait_s"], "stuck", 0.3),
+                      (["wait_f", "wait_s"], "panic", 0.2)],
+                assumptions=COMMON_ASSUME + ["child scripts have the kind of their child (Case.kindOk): a future only "
+                                             "resolves, a stream only yields/ends - enforced by Rust's types"]),
+    "C08": dict(monitor="C08", proj="FUN", cfgs=ALL3, quick=2500, thorough=30000,
+                gens=[(["merge"], "random", 1.0), (["merge"], "fair", 0.4), (["merge"], "stuck", 0.2),
+                      (["merge"], "panic", 0.2), (["merge"], "big", 0.08)],
+                assumptions=COMMON_ASSUME),
+    "C09": dict(monitors=["C09", "C02"], monitor="C09", proj="FUN+C02", cfgs=ALL3, quick=2500, thorough=30000,
+                gens=[(["zip"], "random", 1.0), (["zip"], "fair", 0.4), (["zip"], "stuck", 0.2),
+                      (["zip"], "panic", 0.2), (["zip"], "big", 0.08)],
+                assumptions=COMMON_ASSUME + ["zip over zero inputs is outside C09"]),
+    "C10": dict(monitors=["C10", "C03"], monitor="C10", proj="FUN", cfgs=ALL3, quick=2500, thorough=30000,
+                gens=[(["chain"], "random", 1.0), (["chain"], "fair", 0.4), (["chain"], "stuck", 0.2),
+                      (["chain"], "panic", 0.2), (["chain"], "big", 0.08)],
+                assumptions=COMMON_ASSUME),
 }
